@@ -960,6 +960,18 @@ def multimap_idioms(stmts: list[ast.stmt]) -> list[ast.stmt]:
             if isinstance(x, ast.Try):
                 for h in x.handlers:
                     h.body = block(h.body)
+            # try: d[k].append(v)  except KeyError: d[k] = [v]
+            if isinstance(x, ast.Try) and len(x.body) == 1 and len(x.handlers) == 1 and x.handlers[0].type is not None and u(x.handlers[0].type) == "KeyError" \
+                    and not x.orelse and not x.finalbody and len(x.handlers[0].body) == 1 and is_append(x.body[0]) and is_init(x.handlers[0].body[0], True):
+                a, n_ = is_append(x.body[0]), is_init(x.handlers[0].body[0], True)
+                # (the KeyError can only come from the lookup d[k]: key and value are plain names)
+                if u(a[0]) == u(n_[0]) and u(a[1]) == u(n_[1]) and u(a[2]) == u(n_[2]) and isinstance(a[0], ast.Name) and isinstance(a[1], ast.Name) and isinstance(a[2], ast.Name):
+                    new = app(a[0], a[1], a[2])
+                    ast.copy_location(new, x)
+                    ast.fix_missing_locations(new)
+                    out.append(new)
+                    i += 1
+                    continue
             if isinstance(x, ast.If):
                 m = member(x.test)
                 if m is not None:
